@@ -679,14 +679,13 @@ func checkC09(tier string, seed int64) int {
 		PropertyID: "C09", Tier: tier, Seed: seed, Level: "exploration",
 		Coverage: map[string]any{
 			"evaluations": n, "distinct_nontrivial": len(sigs),
-			"rule":               "a real Client whose transport calls Muxer.Handle in-process reads a real Muxer fed by the C01 generator (profile e2e: segments >= 0.5 s, DTS-merged interleaving, natural clock rates for fMP4, all codecs the muxer accepts, renditions with user names / languages / defaults, parameter changes, negative and wrapping start times); the client is attached after 3-6 complete segments; MPEG-TS / fMP4: the writer is demand-gated (a rendition's playlist reload makes the next segment it needs complete first); Low-Latency: the writer is delivery-gated (at most 0.6 s of media ahead of the delivered position, and always the part whose preload hint is being waited for); distinct = distinct (variant, codec set, attach point)",
+			"rule":               "a real Client whose transport calls Muxer.Handle in-process reads a real Muxer fed by the C01 generator (profile e2e: SegmentMinDuration 0.3-1 s, DTS-merged interleaving, natural clock rates for fMP4, all codecs the muxer accepts, renditions with user names / languages / defaults, parameter changes, negative and wrapping start times); the client is attached after 3-6 complete segments; MPEG-TS / fMP4: the writer is demand-gated (a rendition's playlist reload makes the next segment it needs complete first); Low-Latency: the writer is delivery-gated (at most 0.6 s of media ahead of the delivered position, and always the part whose preload hint is being waited for); distinct = distinct (variant, codec set, attach point)",
 			"samples":            samples,
 			"observed":           obs,
 			"inconclusive":       inconclusive,
 			"known_findings_hit": rep.KnownHits(),
 		},
 		Assumptions: []string{
-			"segments are at least 0.5 s long (shorter ones give TARGETDURATION:0, which the client's decoder rejects)",
 			"AbsoluteTime is compared for leading-track units only (own segment's date-time + DTS distance, 2 ms tolerance, 4 ms for Low-Latency hints)",
 			"the client paces delivery in real time: a run lasts a few seconds and the race detector is on",
 		},
